@@ -520,8 +520,14 @@ class OscScore():
         # when called from a routine but when called from ouside it
         # needs to undo the check of _get_timetag and _get_logical_time.
         # Those methods and this one would need refactoring all at once.
+        # The tail comes after the last event, that is the current time or
+        # the last bundle if its latency reaches beyond the current time.
+        now = _libsc3.main.current_tt._seconds
+        last = max(now, self._scoreq.peek(False)[0])
         if _libsc3.main.current_tt is _libsc3.main.main_tt:
-            tailtime += _libsc3.main.current_tt._seconds
+            tailtime += last
+        else:
+            tailtime += last - now
         self.add([tailtime, ['/c_set', 0, 0]])  # Dummy cmd.
         for _, entry in self._scoreq:
             self._lst_score.append(entry.bndl)
